@@ -568,6 +568,9 @@ func (server *Server) listen(sock socket.Socket, address string, New NewServerCo
 					server.mutex.Unlock()
 					svrctx.codec.Close()
 					vhook("v.codec.closed", svrctx.codec, nil, 0, 1)
+					for _, ctx := range svrctx.streams {
+						ctx.stream.Close()
+					}
 					if svrctx.sched != nil {
 						svrctx.sched.Close()
 					}
